@@ -4,7 +4,8 @@ From Coq Require Import ZArith List Bool Lia Permutation QArith Qcanon.
 Require Export MV.Lib.Base MV.C13.Defs MV.C13.Geom MV.C13.Gen MV.C13.Model MV.C13.Run.
 Require Export MV.C13.Proofs_Base MV.C13.Proofs_Counts MV.C13.Proofs_Topo MV.C13.Proofs_Geom MV.C13.Proofs_GeomQ MV.C13.Proofs_GeomF MV.C13.Proofs_GeomV
                MV.C13.Proofs_Accept MV.C13.Proofs_Accept2 MV.C13.Proofs_Vol MV.C13.Proofs_Arg MV.C13.Proofs_Manifold MV.C13.Proofs_Manifold2 MV.C13.Proofs_Euler
-               MV.C13.Proofs_Border MV.C13.Proofs_Comp MV.C13.Proofs_SD MV.C13.Proofs_Tri MV.C13.Proofs_VolTopo.
+               MV.C13.Proofs_Border MV.C13.Proofs_Comp MV.C13.Proofs_SD MV.C13.Proofs_Tri MV.C13.Proofs_VolTopo
+               MV.C13.Proofs_Pos MV.C13.Proofs_GeomM MV.C13.Proofs_GeomMV MV.C13.Proofs_VolConf.
 Import ListNotations.
 Open Scope Z_scope.
 
@@ -64,8 +65,8 @@ Proof.
   - vm_compute. split; congruence.
   - intros s2 H2. split; [exact I|]. intros s3 _. exact I.
 Qed.
-Example ex_loop_step_ok : exists r1 r2, triangulate QcO ex_square = Ok r1 /\ loop_step QcO r1 = Ok r2 /\ closed (dedges_all (rf r1)) = closed (dedges_all (rf r1)).
-Proof. eexists. eexists. split; [vm_compute; reflexivity|]. split; [vm_compute; reflexivity|reflexivity]. Qed.
+Example ex_loop_step_ok : exists r1 r2, triangulate QcO ex_square = Ok r1 /\ loop_step QcO r1 = Ok r2 /\ nF r2 = 12.
+Proof. eexists. eexists. split; [vm_compute; reflexivity|]. split; vm_compute; reflexivity. Qed.
 (* a closed surface (tetrahedron boundary): `closed` holds and loop/3quads apply *)
 Definition ex_tet_F : list (list Z) := [[0; 1; 2]; [0; 3; 1]; [1; 3; 2]; [2; 3; 0]].
 Example ex_closed : closed (dedges_all ex_tet_F).
